@@ -487,16 +487,21 @@ def _compareDocumentPosition(self, other):
     sparents.reverse()
     oparents.reverse()
 
-    for i, sparent in enumerate(sparents):
-        for j, oparent in enumerate(oparents):
-            if sparent is oparent:
-                s = sparents[i+1]
-                o = oparents[j+1]
-                for item in sparent:
-                   if item is s:
-                       return Node.DOCUMENT_POSITION_FOLLOWING
-                   if item is o:
-                       return Node.DOCUMENT_POSITION_PRECEDING
+    # Find the deepest common ancestor; the order of the two branches
+    # below it decides which node comes first.
+    common = None
+    for i, (sparent, oparent) in enumerate(zip(sparents, oparents)):
+        if sparent is not oparent:
+            break
+        common = i
+    if common is not None:
+        s = sparents[common+1]
+        o = oparents[common+1]
+        for item in sparents[common]:
+            if item is s:
+                return Node.DOCUMENT_POSITION_FOLLOWING
+            if item is o:
+                return Node.DOCUMENT_POSITION_PRECEDING
 
     return Node.DOCUMENT_POSITION_DISCONNECTED
 
